@@ -1,8 +1,8 @@
 #!/bin/bash
 # C13 ("every run terminates"): `group --transform ... --in-place` hangs forever when the
 # transform program writes more than a pipe buffer (64 KiB) to its standard output.
-CO=${1:-/tmp/hunt/n5}
-F=/tmp/hunt/n5/target/debug/fclones
+CO=${1:-/repo}
+F=${1:-/repo}/target/debug/fclones
 [ -x "$F" ] || F="$CO/target/debug/fclones"
 S=$(mktemp -d) || exit 2
 trap 'rm -rf "$S"' EXIT
